@@ -364,6 +364,17 @@ def rewrite_strmatch(text):
     by string equality); needed because Verus gives string-literal patterns no meaning."""
     n = 0
     pos = 0
+    # `E != "lit"`: PartialEq::ne is a provided method Verus cannot be given a spec for; rewrite to `!(E == "lit")`
+    def _ne(mm):
+        return "!(%s == %s)" % (mm.group(1), mm.group(2))
+    src0 = rsitems.Src(text)
+    pieces, last = [], 0
+    for mm in re.finditer(r"([A-Za-z_][\w\.]*(?:\(\))?)\s*!=\s*(%s)" % STRLIT_RE, text):
+        if src0.mask[mm.start()]:
+            pieces.append(text[last:mm.start()] + _ne(mm))
+            last = mm.end()
+            n += 1
+    text = "".join(pieces) + text[last:]
     while True:
         src = rsitems.Src(text)
         found = None
@@ -384,7 +395,10 @@ def rewrite_strmatch(text):
                         continue
                     lits = re.findall(STRLIT_RE, pat)
                     expr = text[op + 1:comma].strip()
-                    new = "{ let m_ = %s; %s }" % (expr, " || ".join("m_ == %s" % l for l in lits))
+                    if re.fullmatch(r"[A-Za-z_][\w]*(\.[A-Za-z_0-9]+(\(\))?)*", expr):
+                        new = "(%s)" % " || ".join("%s == %s" % (expr, l) for l in lits)
+                    else:
+                        new = "{ let m_ = %s; %s }" % (expr, " || ".join("m_ == %s" % l for l in lits))
                     text = text[:p] + new + text[cp + 1:]
                     n += 1
                     pos = p + 1
@@ -400,11 +414,15 @@ def rewrite_strmatch(text):
                     expr = text[p + 5:ob].strip()
                     parts = []
                     closed = False
+                    # a plain field/method path is repeated instead of bound: a `let m_ = &..` borrow of
+                    # the scrutinee would stay alive across arms that mutate the same object
+                    simple = re.fullmatch(r"[A-Za-z_][\w]*(\.[A-Za-z_0-9]+(\(\))?)*", expr) is not None
+                    sc = expr if simple else "m_"
                     for lits, bind, body in arms:
                         if lits:
-                            parts.append("if %s %s" % (" || ".join("m_ == %s" % l for l in lits), body))
+                            parts.append("if %s %s" % (" || ".join("%s == %s" % (sc, l) for l in lits), body))
                         elif bind:
-                            parts.append("{ let %s = m_; %s }" % (bind, body))
+                            parts.append("{ let %s = %s; %s }" % (bind, sc, body))
                             closed = True
                             break
                         else:
@@ -413,7 +431,7 @@ def rewrite_strmatch(text):
                             break
                     if not closed:
                         continue      # non-exhaustive over strings cannot happen in Rust; be safe
-                    new = "{ let m_ = %s; %s }" % (expr, " else ".join(parts))
+                    new = ("{ %s }" % " else ".join(parts)) if simple else ("{ let m_ = %s; %s }" % (expr, " else ".join(parts)))
                     text = text[:p] + new + text[cb + 1:]
                     n += 1
                     pos = p + 1
